@@ -170,6 +170,7 @@ type bOpts struct {
 	batchTimeout time.Duration
 	maxBatch     int
 	stressMode   string
+	stressRate   uint64 // StressRelief.SamplingRate; 0 = 2
 	inQueue      int
 	sampler      any
 	samplerName  string
@@ -201,7 +202,7 @@ func newWorldB(p *Plan, out *Outcome, o bOpts) *worldB {
 		}
 		sort.Slice(others, func(a, b int) bool { return H(o.shuffleSeed, i, others[a]) < H(o.shuffleSeed, i, others[b]) })
 		n.cfg = &config.MockConfig{
-			GetHoneycombAPIVal:               "http://" + hnyHost,
+			GetHoneycombAPIVal:               "http://" + hnyHost + apiSuffix(p),
 			GetListenAddrVal:                 "0.0.0.0:8080",
 			GetPeerListenAddrVal:             "0.0.0.0:8081",
 			RedisIdentifier:                  fmt.Sprintf("n%d.sim", i),
@@ -216,7 +217,7 @@ func newWorldB(p *Plan, out *Outcome, o bOpts) *worldB {
 			},
 			GetCollectionConfigVal: config.CollectionConfig{WorkerCount: o.workers, IncomingQueueSize: o.inQueue, PeerQueueSize: o.inQueue, HealthCheckTimeout: config.Duration(3 * time.Second), ShutdownDelay: config.Duration(time.Second)},
 			SampleCache:            config.SampleCacheConfig{KeptSize: 10000, DroppedSize: 100000, SizeCheckInterval: config.Duration(time.Second), WorkerCount: uint(o.workers)},
-			StressRelief:           config.StressReliefConfig{Mode: o.stressMode, ActivationLevel: 80, DeactivationLevel: 50, SamplingRate: 2, MinimumActivationDuration: config.Duration(500 * time.Millisecond)},
+			StressRelief:           config.StressReliefConfig{Mode: o.stressMode, ActivationLevel: 80, DeactivationLevel: 50, SamplingRate: rateOr2(o.stressRate), MinimumActivationDuration: config.Duration(500 * time.Millisecond)},
 			GetSamplerTypeVal:      o.sampler,
 			GetSamplerTypeName:     o.samplerName,
 			TraceIdFieldNames:      []string{"trace.trace_id", "traceId"},
@@ -742,4 +743,20 @@ func (w *worldB) send(r *bRequest) {
 		r.finished = true
 		w.mu.Unlock()
 	}()
+}
+
+func rateOr2(r uint64) uint64 {
+	if r == 0 {
+		return 2
+	}
+	return r
+}
+
+// apiSuffix: Network.HoneycombAPI is written with a trailing slash in some
+// plans (legal; the documented default has none).
+func apiSuffix(p *Plan) string {
+	if p.Get("api_slash", 0) == 1 {
+		return "/"
+	}
+	return ""
 }
